@@ -564,10 +564,9 @@ class C14:
                     viol.append(oracles.V("placed-file-wrong-length", path=rel, size=size, recorded=assigned[rel], run=rep))
                 if dig not in world["search_files"].get(os.path.basename(rel), set()):
                     viol.append(oracles.V("placed-file-is-no-copy-of-a-search-file", path=rel, run=rep))
-                if dig in world["decoy_digests"]:
-                    viol.append(oracles.V("decoy-placed", path=rel, run=rep))
-                elif size and rel in world["placed_expect"] and dig != world["placed_expect"][rel][1] and \
-                        size == world["placed_expect"][rel][0]:
+                wrong_same_size = size and rel in world["placed_expect"] and dig != world["placed_expect"][rel][1] and \
+                    size == world["placed_expect"][rel][0]
+                if dig in world["decoy_digests"] or wrong_same_size:
                     # the statement forbids placing a file NONE of whose bytes verify; a candidate that agrees with
                     # the genuine file on the slice lying in the first piece containing it did verify there
                     partly = False
@@ -577,6 +576,8 @@ class C14:
                                 partly = True
                     if partly:
                         counters["placed_after_partial_verification"] = counters.get("placed_after_partial_verification", 0) + 1
+                    elif dig in world["decoy_digests"]:
+                        viol.append(oracles.V("decoy-placed", path=rel, run=rep))
                     else:
                         viol.append(oracles.V("non-verifying-same-size-file-placed", path=rel, run=rep))
         if decoy_first:
